@@ -25,7 +25,7 @@ def run_export(case):
         if case.get('probes'):
             subdirs = []
             for k, spec in enumerate(case['probes']):
-                sd = d / ('probe%d' % k)
+                sd = d / M.probe_dir(case.get('dirnames', 'idx'), k)
                 D.write_dataset(sd, spec)
                 subdirs.append(sd)
             src = d / 'merged'
